@@ -1,6 +1,27 @@
 """C20 constants (fallback DNS resolver): server list, name limits, struct sizes/offsets, timer periods.
 Everything is read from supla_esp_dns_client.c itself (the file is #included by the probe)."""
+import os, re
 import gen as G
+
+def _skip_index_type():
+    """C type of the index `a` that supla_esp_dns_recv_cb uses to skip the owner name of the first answer, read from its
+    declaration in the body of that function.  Not found / not an unsigned integer type => a type that does not exist,
+    so that the probe does not compile (translator broken)."""
+    bad = 'struct c20_declaration_of_the_name_skip_index_not_recognised'
+    try:
+        src = open(os.path.join(G.REPO, 'src', 'user', 'supla_esp_dns_client.c')).read()
+    except OSError:
+        return bad
+    m = re.search(r'supla_esp_dns_recv_cb\s*\([^)]*\)\s*\{(.*?)\n\}', src, flags=re.S)
+    if not m: return bad
+    body = re.sub(r'/\*.*?\*/|//[^\n]*', '', m.group(1), flags=re.S)
+    d = re.findall(r'(?:^|[;{}])\s*((?:const\s+|volatile\s+|register\s+)*(?:(?:un)?signed\s+)?(?:(?:char|short|int|long)\b\s*)*|u?int(?:8|16|32|64)(?:_t)?\s+|size_t\s+)\ba\s*(?:=[^;,]*)?;', body)
+    d = [x.strip() for x in d if x.strip()]
+    loops = re.findall(r'for\s*\(\s*a\s*=\s*0\s*;\s*a\s*<\s*len\s*;\s*a\+\+\s*\)', body)
+    if len(d) != 1 or len(loops) != 1: return bad
+    return d[0]
+
+_T = _skip_index_type()
 
 _body = r'''
   { /* which byte of the header and which bits hold RCODE: set all bits of the field, look at the bytes */
@@ -43,7 +64,8 @@ G.GROUPS['DnsConsts'] = dict(
         ('OFF_A_TYPE', 'offsetof(_t_dns_answer_suffix, TYPE)'),
         ('OFF_A_CLASS', 'offsetof(_t_dns_answer_suffix, CLASS)'),
         ('OFF_A_RDLENGTH', 'offsetof(_t_dns_answer_suffix, RDLENGTH)'),
-        ('REMOTE_PORT', '53'),
+        # the name-skip index of supla_esp_dns_recv_cb: 2^bits of its declared type; 0 when that type is signed
+        ('SKIP_IDX_MOD', '((%s)-1 > 0) ? (1LL << (8 * sizeof(%s) > 62 ? 62 : 8 * sizeof(%s))) : 0' % (_T, _T, _T)),
     ],
     body=_body,
     extra_names=['RCODE_OFF', 'RCODE_MASK', 'RD_OFF', 'RD_MASK', 'ID_ONE', 'SERVERS', 'HTONS_0102'],
